@@ -31,7 +31,7 @@ theorem mapVals_foldl {α β : Type} (f : α → β) : ∀ (xs acc : List (Strin
 theorem mapVals_sortKV {α β : Type} (f : α → β) (xs : List (String × α)) : mapVals f (sortKV xs) = sortKV (mapVals f xs) := by
   simp only [sortKV]; exact mapVals_foldl f xs []
 
-def recVal (o : Option NJ) : R Expr := match o with | none => .error .panic | some n => nodeToExpr n
+def recVal (o : Option NJ) : R Expr := match o with | none => .error .reject | some n => nodeToExpr n
 
 theorem recordToExprs_eq : ∀ (l : List (String × Option NJ)), recordToExprs l = mapVals recVal l
   | [] => by simp [recordToExprs, mapVals]
@@ -74,7 +74,7 @@ theorem toExpr_embed (e : Expr) (hr : renderableE e = true) : nodeToExpr (embed 
   | has e a => simp only [renderableE] at hr; simp [embed, normE, nodeToExpr, toExpr_embed e hr]
   | like e p =>
     simp only [renderableE, Bool.and_eq_true] at hr
-    simp [embed, normE, nodeToExpr, toExpr_embed e hr.1.1]
+    simp [embed, normE, nodeToExpr, toExpr_embed e hr.1]
   | is e ty => simp only [renderableE] at hr; simp [embed, normE, nodeToExpr, toExpr_embed e hr]
   | isIn e ty r =>
     simp only [renderableE, Bool.and_eq_true] at hr
@@ -86,7 +86,10 @@ theorem toExpr_embed (e : Expr) (hr : renderableE e = true) : nodeToExpr (embed 
     rw [← mapVals_sortKV, combineRecord_ok]
   | call fn args =>
     simp only [renderableE, Bool.and_eq_true] at hr
-    simp only [embed, normE, nodeToExpr, extToExpr, hr.1, if_true, toExprs_embeds args hr.2]
+    have hm : (extIsMethod fn && (embeds args).isEmpty) = false := by
+      have := hr.1.2
+      cases args <;> simp_all [embeds]
+    simp only [embed, normE, nodeToExpr, extToExpr, hr.1.1, if_true, hm, Bool.false_eq_true, if_false, toExprs_embeds args hr.2]
 theorem toExprs_embeds (es : List Expr) (hr : renderableEs es = true) : nodesToExprs (embeds es) = .ok (normEs es) := by
   cases es with
   | nil => simp [embeds, normEs, nodesToExprs]
@@ -101,6 +104,74 @@ theorem recVals_embedKEs (kes : List (String × Expr)) (hr : renderableKEs kes =
     obtain ⟨k, e⟩ := ke
     simp only [renderableKEs, Bool.and_eq_true] at hr
     simp [embedKEs, normKEs, mapVals, recVal, toExpr_embed e hr.1, recVals_embedKEs kes hr.2]
+end
+
+/-! ### phase 2 has no panic branch -/
+
+theorem combineRecord_noPanic (rs : List (String × R Expr)) : combineRecord rs ≠ .error .panic := by
+  unfold combineRecord
+  simp only
+  split
+  · simp
+  · split
+    · simp
+    · split <;> simp
+
+mutual
+theorem nodeToExpr_noPanic : ∀ (n : NJ), nodeToExpr n ≠ .error .panic
+  | .empty => by simp [nodeToExpr]
+  | .value v => by simp [nodeToExpr]
+  | .var s => by simp only [nodeToExpr]; split <;> simp
+  | .unary op a => by
+    have := nodeToExpr_noPanic a
+    simp only [nodeToExpr]; split <;> simp_all
+  | .binary op l r => by
+    have := nodeToExpr_noPanic l
+    have := nodeToExpr_noPanic r
+    simp only [nodeToExpr]; repeat' split
+    all_goals simp_all
+  | .strop h l a => by
+    have := nodeToExpr_noPanic l
+    simp only [nodeToExpr]; split <;> simp_all
+  | .like l p => by
+    have := nodeToExpr_noPanic l
+    simp only [nodeToExpr]; split <;> simp_all
+  | .is_ l ty none => by
+    have := nodeToExpr_noPanic l
+    simp only [nodeToExpr]; split <;> simp_all
+  | .is_ l ty (some r) => by
+    have := nodeToExpr_noPanic l
+    have := nodeToExpr_noPanic r
+    simp only [nodeToExpr]; repeat' split
+    all_goals simp_all
+  | .ite c t e => by
+    have := nodeToExpr_noPanic c
+    have := nodeToExpr_noPanic t
+    have := nodeToExpr_noPanic e
+    simp only [nodeToExpr]; repeat' split
+    all_goals simp_all
+  | .set xs => by
+    have := nodesToExprs_noPanic xs
+    simp only [nodeToExpr]; split <;> simp_all
+  | .record kvs => by
+    have := combineRecord_noPanic (recordToExprs kvs)
+    simp only [nodeToExpr]; split <;> simp_all
+  | .ext entries => by
+    simp only [nodeToExpr]
+    match entries with
+    | [] => simp [extToExpr]
+    | [(name, args)] =>
+      have := nodesToExprs_noPanic args
+      simp only [extToExpr]; repeat' split
+      all_goals simp_all
+    | _ :: _ :: _ => simp [extToExpr]
+theorem nodesToExprs_noPanic : ∀ (ns : List NJ), nodesToExprs ns ≠ .error .panic
+  | [] => by simp [nodesToExprs]
+  | n :: ns => by
+    have := nodeToExpr_noPanic n
+    have := nodesToExprs_noPanic ns
+    simp only [nodesToExprs]; repeat' split
+    all_goals simp_all
 end
 
 end CedarGo.JsonModel
